@@ -513,4 +513,89 @@ theorem zigzag64_toInt (x : BitVec 64) : (zigzag64 x).toInt = unzigzag x.toNat :
 theorem zigzagInt_spec (v : Nat) (h : v < 2 ^ 64) : zigzagInt v = unzigzag v := by
   unfold zigzagInt; rw [zigzag64_toInt]; simp [BitVec.toNat_ofNat, Nat.mod_eq_of_lt h]
 
+theorem validUtf8_split : ∀ (n : Nat) (a b : List Nat), a.length = n → validUtf8 (a ++ b) = true →
+    (∀ x ∈ b.head?, isCont x = false) → validUtf8 a = true ∧ validUtf8 b = true := by
+  intro n
+  induction n using Nat.strongRecOn with
+  | _ n ih =>
+    intro a b hn hv hb
+    match a, hn with
+    | [], _ => simpa [validUtf8] using hv
+    | b0 :: ra, hn =>
+      simp only [List.cons_append] at hv
+      have e1 := validUtf8.eq_def (b0 :: (ra ++ b))
+      have e2 := validUtf8.eq_def (b0 :: ra)
+      simp only [] at e1 e2
+      rw [e1] at hv
+      rw [e2]
+      clear e1 e2
+      by_cases c1 : b0 < 128
+      · simp only [c1, if_true] at hv ⊢
+        exact ih ra.length (by simp at hn; omega) ra b rfl hv hb
+      simp only [c1, if_false] at hv ⊢
+      by_cases c2 : 194 ≤ b0 ∧ b0 < 224
+      · simp only [c2, and_self, if_true] at hv ⊢
+        match ra, hn with
+        | [], _ =>
+          match b, hb with
+          | [], _ => simp at hv
+          | x :: r, hb =>
+            have := hb x (by simp)
+            simp [this] at hv
+        | b1 :: ra', hn =>
+          simp only [List.cons_append, Bool.and_eq_true] at hv ⊢
+          have := ih ra'.length (by simp at hn; omega) ra' b rfl hv.2 hb
+          exact ⟨⟨hv.1, this.1⟩, this.2⟩
+      simp only [c2, if_false] at hv ⊢
+      by_cases c3 : 224 ≤ b0 ∧ b0 < 240
+      · simp only [c3, and_self, if_true] at hv ⊢
+        match ra, hn with
+        | [], _ =>
+          match b, hb with
+          | [], _ => simp at hv
+          | [x], hb => simp at hv
+          | x :: y :: r, hb =>
+            have := hb x (by simp)
+            simp [this] at hv
+        | [b1], _ =>
+          match b, hb with
+          | [], _ => simp at hv
+          | x :: r, hb =>
+            have := hb x (by simp)
+            simp [this] at hv
+        | b1 :: b2 :: ra', hn =>
+          simp only [List.cons_append, Bool.and_eq_true] at hv ⊢
+          have := ih ra'.length (by simp at hn; omega) ra' b rfl hv.2 hb
+          exact ⟨⟨hv.1, this.1⟩, this.2⟩
+      simp only [c3, if_false] at hv ⊢
+      by_cases c4 : 240 ≤ b0 ∧ b0 < 245
+      · simp only [c4, and_self, if_true] at hv ⊢
+        match ra, hn with
+        | [], _ =>
+          match b, hb with
+          | [], _ => simp at hv
+          | [x], hb => simp at hv
+          | [x, y], hb => simp at hv
+          | x :: y :: z :: r, hb =>
+            have := hb x (by simp)
+            simp [this] at hv
+        | [b1], _ =>
+          match b, hb with
+          | [], _ => simp at hv
+          | [x], hb => simp at hv
+          | x :: y :: r, hb =>
+            have := hb x (by simp)
+            simp [this] at hv
+        | [b1, b2], _ =>
+          match b, hb with
+          | [], _ => simp at hv
+          | x :: r, hb =>
+            have := hb x (by simp)
+            simp [this] at hv
+        | b1 :: b2 :: b3 :: ra', hn =>
+          simp only [List.cons_append, Bool.and_eq_true] at hv ⊢
+          have := ih ra'.length (by simp at hn; omega) ra' b rfl hv.2 hb
+          exact ⟨⟨hv.1, this.1⟩, this.2⟩
+      · simp [c4] at hv
+
 end ArrowModel.C08
